@@ -20,13 +20,14 @@ KIND_PATTERNS = {
 }
 
 
-def _task(P, name, kind, optional):
+def _task(P, name, kind, optional, dated=False):
+    kw = dict(release=True, due="soft") if dated else {}
     if kind == "var":
-        return make_task(P, name, "var", optional=optional, vmin=True, vmax=True)
-    return make_task(P, name, kind, optional=optional)
+        return make_task(P, name, "var", optional=optional, vmin=True, vmax=True, **kw)
+    return make_task(P, name, kind, optional=optional, **kw)
 
 
-def make_shape(prop, ename, variant, kinds, optmask, copt, horizon=False, extra=None, early=False):
+def make_shape(prop, ename, variant, kinds, optmask, copt, horizon=False, extra=None, early=False, dated=False):
     el = ELEMENTS[ename]
     vtag = ",".join(f"{k}={v}" for k, v in sorted(variant.items())) or "-"
     name = f"{ename}/{vtag}/{'+'.join(kinds)}/opt{''.join(str(int(b)) for b in optmask)}/{'optc' if copt else 'mandc'}"
@@ -34,10 +35,12 @@ def make_shape(prop, ename, variant, kinds, optmask, copt, horizon=False, extra=
         name += "/hz"
     if early:
         name += "/solver_object_created_first"
+    if dated:
+        name += "/tasks_with_release_and_soft_due_dates"
 
     def build(P):
         pb, hv = new_problem(P, horizon)
-        tis = [_task(P, "ABC"[i], k, optmask[i]) for i, k in enumerate(kinds)]
+        tis = [_task(P, "ABC"[i], k, optmask[i], dated) for i, k in enumerate(kinds)]
         early_solver = ps.SchedulingSolver(problem=pb) if early else None
         c = el.build(P, tis, optional=copt, **variant)
         ctx = Ctx(problem=pb, tis=tis, cst=c, horizon=hv, named={"applied": c._applied})
@@ -198,6 +201,9 @@ def shapes(tier):
             if tier == "thorough" or vi == 0:
                 out.append(make_shape(PROP, ename, variant, pats[0], (False,) * el.ntasks, False, horizon=True))
                 out.append(make_shape(PROP, ename, variant, pats[0], (False,) * el.ntasks, False, early=True))
+            # the rule must not read the dates of the tasks it names (a release date, a due date that is not a deadline)
+            if tier == "thorough" or vi < 2 or getattr(el, "count_scheduled", False):
+                out.append(make_shape(PROP, ename, variant, pats[0], (False,) * el.ntasks, False, dated=True))
     return out
 
 
